@@ -1,6 +1,7 @@
 import Driver.Common
 import ScionTime.Model.Sync
 import Driver.MainSyncOps
+import ScionTime.Model.MainCfg
 open Driver ScionTime.Sync ScionTime.F64
 
 /-!
@@ -22,6 +23,7 @@ ops (see harness/cmd/c01/main.go for the Go side):
   tm.mid <x> <y>      -> ok <timemath.Midpoint>
   tm.sgn <x>          -> ok <timemath.Sgn>
   dur.abs <x>         -> ok <time.Duration.Abs>
+  clk.drift <d> <iv>  -> ok <clocks.NewSystemClock(log, d).Drift(iv)>   (MainCfg.runDrift)
   ftm <[offsets]>     -> ok <offset> <[slice afterwards]> | panic explicit:unexpected_number_of_values
 -/
 
@@ -110,6 +112,11 @@ def step (_ : Unit) (toks : List String) : Unit × String :=
     match parseI64? x with
     | some x => ((), s!"ok {(absDur x).toInt}")
     | none => ((), "bad-op")
+  | ["clk.drift", d, iv] =>
+    -- clocks.NewSystemClock(log, d).Drift(iv): the clock timeservice.go hands to Run
+    match parseI64? d, parseI64? iv with
+    | some d, some iv => ((), s!"ok {ScionTime.MainCfg.runDrift d.toInt iv.toInt}")
+    | _, _ => ((), "bad-op")
   | ["ftm", l] =>
     match parseIntList? l with
     | some xs =>
